@@ -12,8 +12,13 @@ Monitors (all observe real executions of the tree under test):
    (anything that changed must be in _STATE_KEYS | _HISTORY_KEYS or a per-sampler list of caches that
    are recomputed before use),
  * split-vs-unsplit runs under the identical random stream,
- * for *every* position p of the sampling phase: save_checkpoint at p in the uninterrupted run, a freshly
-   constructed sampler of the same configuration, load_checkpoint, continue from the stream position of p,
+ * for *every* position p of the sampling phase: save_checkpoint at p in the uninterrupted run (from the user
+   callback), a freshly constructed sampler of the same configuration, the state handed over by one of three
+   routes (load_checkpoint into an uninitialised / an initialised sampler, set_state(get_state())), continue
+   from the stream position of p; the dictionary get_state() returned at p must not change afterwards,
+ * batches written by sample(..., batch_size=b) are full, consecutive and in order; burnthin() is a slice,
+ * stateless interface: returned chain == [x0, states returned by the transitions][Nb:], callback count /
+   index / state, x0 untouched, a second call and a call without callback repeat the chain,
  * reinitialize() versus a freshly constructed + initialised sampler (attribute by attribute and by the
    chain it then produces).
 Oracle: chain bookkeeping in vlib/refs/c14_chain.py (no cuqi import).
@@ -25,7 +30,8 @@ from vlib.refs import c14_chain as R
 
 PROPERTY = "C14"
 RULE = ("enumeration of (interface, sampler, target kind, parameter variant, lazy/explicit initialisation, warm-up) "
-        "x sampled (dim, N, M, burn-in, seeds); every stateful case checkpoints at every position 0..N+M-1 of the "
+        "x sampled (dim, N, M, burn-in, earlier samples, tune frequency, batch size, seeds); every stateful case "
+        "checkpoints at every position 0..N+M-1 of the "
         "sampling phase. A case is non-trivial when at least one chain comparison (split/checkpoint/callback/"
         "burn-in) was made on a chain with >= 2 distinct states; distinct = distinct descriptors")
 ASSUMPTIONS = [
